@@ -216,7 +216,31 @@ impl DocumentBuilder<'_> {
     }
 
     pub fn input_value_for_type(&mut self, ty: &Ty) -> ArbitraryResult<InputValue> {
-        let gen_val = |doc_builder: &mut DocumentBuilder<'_>| -> ArbitraryResult<InputValue> {
+        self.input_value_for_type_in(ty, &mut Vec::new())
+    }
+
+    /// `enclosing`: the input object types whose value is being generated around this one.
+    fn input_value_for_type_in(
+        &mut self,
+        ty: &Ty,
+        enclosing: &mut Vec<Name>,
+    ) -> ArbitraryResult<InputValue> {
+        if enclosing.contains(ty.name()) {
+            // An input object may refer to itself through a nullable or list type
+            // (`input I { next: I }`). Expanding such a reference again would never terminate.
+            return match ty {
+                Ty::Named(_) => Ok(InputValue::Null),
+                Ty::List(_) => Ok(InputValue::List(Vec::new())),
+                Ty::NonNull(inner) if matches!(**inner, Ty::List(_)) => {
+                    Ok(InputValue::List(Vec::new()))
+                }
+                // A non-null cycle has no finite value (and is not a valid schema)
+                Ty::NonNull(_) => Err(arbitrary::Error::IncorrectFormat),
+            };
+        }
+        let gen_val = |doc_builder: &mut DocumentBuilder<'_>,
+                       enclosing: &mut Vec<Name>|
+         -> ArbitraryResult<InputValue> {
             if ty.is_builtin() {
                 match ty.name().name.as_str() {
                     "String" => Ok(InputValue::String(doc_builder.limited_string(1000)?)),
@@ -243,18 +267,19 @@ impl DocumentBuilder<'_> {
                 .find(|io| &io.name == ty.name())
                 .cloned()
             {
-                Ok(InputValue::Object(
-                    input_object_ty
-                        .fields
-                        .iter()
-                        .map(|field_def| {
-                            Ok((
-                                field_def.name.clone(),
-                                doc_builder.input_value_for_type(&field_def.ty)?,
-                            ))
-                        })
-                        .collect::<ArbitraryResult<Vec<_>>>()?,
-                ))
+                enclosing.push(input_object_ty.name.clone());
+                let fields = input_object_ty
+                    .fields
+                    .iter()
+                    .map(|field_def| {
+                        Ok((
+                            field_def.name.clone(),
+                            doc_builder.input_value_for_type_in(&field_def.ty, enclosing)?,
+                        ))
+                    })
+                    .collect::<ArbitraryResult<Vec<_>>>();
+                enclosing.pop();
+                Ok(InputValue::Object(fields?))
             } else if doc_builder
                 .scalar_type_defs
                 .iter()
@@ -268,16 +293,16 @@ impl DocumentBuilder<'_> {
         };
 
         let val = match ty {
-            Ty::Named(_) => gen_val(self)?,
+            Ty::Named(_) => gen_val(self, enclosing)?,
             Ty::List(_) => {
                 let nb_elt = self.u.int_in_range(1..=25usize)?;
                 InputValue::List(
                     (0..nb_elt)
-                        .map(|_| gen_val(self))
+                        .map(|_| gen_val(self, enclosing))
                         .collect::<ArbitraryResult<Vec<InputValue>>>()?,
                 )
             }
-            Ty::NonNull(_) => gen_val(self)?,
+            Ty::NonNull(_) => gen_val(self, enclosing)?,
         };
 
         Ok(val)
